@@ -182,6 +182,21 @@ func signedField(r *ref.SplitMix64, n uint) int {
 		return 0
 	case 5:
 		return 1
+	case 6:
+		// plus or minus a power of two and its neighbours (the "invalid" markers of
+		// the narrower fields of the other MSM format are among them)
+		v := 1 << uint(r.Intn(int(n)-1))
+		if r.Chance(1, 2) {
+			v = -v
+		}
+		v += r.Intn(3) - 1
+		if v < min {
+			v = min
+		}
+		if v > max {
+			v = max
+		}
+		return v
 	}
 	return r.Range(min, max)
 }
